@@ -332,7 +332,9 @@ def one_history(run, sc, i, length):
     except Exception as e:  # noqa: BLE001
         run.violation({"files": files}, {"what": "UAGraph.from_path raised on a closed document set: %s: %s" % (type(e).__name__, str(e)[:200])})
         return False
-    G0 = copy.deepcopy(G)
+    G0 = snapshot_graph(run, G, {"files": files})
+    if G0 is None:
+        return False
     gj = W.graph_json(G0)
     info = graph_info(G0)
     fp0 = graph_fp(G)
@@ -377,6 +379,20 @@ def one_history(run, sc, i, length):
     return True
 
 
+def snapshot_graph(run, G, case):
+    """a deep copy of the graph (the reference for 'what a freshly built graph returns'); a graph whose state cannot be
+    copied — a one-shot iterator in place of a list, an open handle — cannot be 'left exactly as it was' by reading it"""
+    try:
+        G0 = copy.deepcopy(G)
+        if [dict(m) for m in G0.models] != [dict(m) for m in G.models] or list(G0.namespaces) != list(G.namespaces):
+            raise ValueError("models / namespaces of the graph change when they are read")
+        return G0
+    except Exception as e:  # noqa: BLE001
+        run.violation(case, {"what": "the graph's state cannot be read without changing it / cannot be copied: %s: %s" % (type(e).__name__, str(e)[:200]),
+                             "call": "UAGraph(...) then copy.deepcopy(graph), list(graph.models)"})
+        return None
+
+
 def modelless_witness(run, sc):
     """a namespace whose document has no Models element, written plainly, then with a new model version, then plainly
     again (and the other namespace after it): every write returns what it returns on a fresh graph"""
@@ -388,7 +404,9 @@ def modelless_witness(run, sc):
     except Exception as e:  # noqa: BLE001
         run.violation({"files": files}, {"what": "UAGraph.from_path raised on a closed document set: %s: %s" % (type(e).__name__, str(e)[:200])})
         return False
-    G0 = copy.deepcopy(G)
+    G0 = snapshot_graph(run, G, {"files": files})
+    if G0 is None:
+        return False
     fp0 = graph_fp(G)
     A, B = "http://a.example/types", "http://b.example/inst"
     ops = [{"k": "write", "uri": A, "outgoing": True, "new_version": None, "target": "stringio"},
